@@ -203,6 +203,9 @@ class Run:
                 g = REG.eval_clause(interp, cond, c, env)
                 ctx.oblige("noraise/%s/%d" % (tag, j), z3.Not(sym.truth(g)),
                            clause="returns normally only if not (%s)" % cond)
+        for lem in c.lemmas:
+            from . import sumtheory
+            sumtheory.use_lemma(interp, lem[0], [envp[a] if isinstance(a, str) else a for a in lem[1:]])
         for j, e in enumerate(c.ensures):
             g = REG.eval_clause(interp, e, c, envp)
             ctx.oblige("post/%s/%d" % (tag, j), g, clause=e)
